@@ -122,6 +122,12 @@ def rules(ctx, tab, tag=""):
                    site, trace_of(p), what="iteration-exits")
             continue
         effects = r.state_stores + r.other_stores + r.sends + r.updates + r.adds
+        if effects:
+            # fail closed: "a disabled animator changes nothing" - every row with an effect must have found it enabled
+            ctx.ob("R1" + tag, lab + "/effects-only-when-enabled", r.enabled == 1,
+                   "this row changes something (stores %d, events %d, updates %d, time %d) without having tested that the "
+                   "animator is enabled" % (len(r.state_stores) + len(r.other_stores), len(r.sends), len(r.updates), len(r.adds)),
+                   site, trace_of(p), what="enabled-not-checked")
         if r.enabled == 0:
             ctx.ob("R1" + tag, lab + "/disabled-no-effect", not effects,
                    "a disabled animator changes nothing (stores %d, events %d, updates %d, time %d)"
